@@ -190,20 +190,50 @@ def stream_rules_text(ctx: Ctx) -> Stream:
 			text = rules.pretty() + '\n'
 		except Exception:  # noqa: BLE001 - rules-ast compares pretty() itself
 			continue
-		if rng.random() < 0.15:
+		if rng.random() < 0.25:
 			# damaged printouts exercise the error path of the engine under the gram rules
 			pos = rng.randrange(len(text))
-			text = text[:pos] + rng.choice(['', '(', ']', '|', ':=', ' ']) + text[pos + rng.randint(0, 2):]
+			text = text[:pos] + rng.choice(['', '(', ']', '|', ':=', ' ', '"', '/', '\\', '\n', "'", '$']) + text[pos + rng.randint(0, 2):]
 			texts.append(('damaged', text, None))
 		else:
 			texts.append(('bare' if rules_have_bare_group(rules) else 'plain', text, t))
+	for path, func in [('data/syntax/py_rules.py', 'py_rules'), ('data/syntax/gram_rules.py', 'gram_rules')]:
+		lit = gen_rules.literal_of_rule_module(os.path.join(REPO, path), func)
+		try:
+			rules = real_from_ast(lit)[1]
+			k2, payload2, _ = world.parse(rules.pretty() + '\n')
+			ok = k2 == 'ok' and gramlib.rules_show(real_from_ast(payload2)[1]) == gramlib.rules_show(rules)
+		except Exception:  # noqa: BLE001
+			ok = False
+		cases.append(({'kind': f'textrt-{func}', 'outcome': 'ok'}, [f'textrt\t{gramlib.tentry_sexp(lit)}'], ['ok ' + ('true' if ok else 'false')]))
 	for kind, text, tree in texts:
 		try:
 			k, payload, tokens = world.parse(text)
-		except Exception:  # noqa: BLE001 - lexer failures belong to C13
+		except Exception:  # noqa: BLE001 - the lexer refuses the text: the model must refuse it too
+			if kind == 'damaged' and text.isascii():
+				cases.append(({'kind': kind, 'outcome': 'lex-error'}, [f'reload\t{hx(text)}'], ['lex-error']))
 			continue
 		ops = [f'compile\t{hx(text)}\t{gramlib.toks_field(tokens, world.regexps)}']
 		real = [gramlib.real_parse_line(k, payload)]
+		if kind in ('plain', 'bare'):
+			# the whole text-level round trip in the model (printer, C13 lexer model with the gram token definition, transcribed regexp
+			# classes, engine, from_ast) against the same round trip on the real code
+			ops.append(f'textrt\t{gramlib.tentry_sexp(tree)}')
+			try:
+				back = real_from_ast(payload)[1] if k == 'ok' else None
+				real.append('ok ' + ('true' if back is not None and gramlib.rules_show(back) == gramlib.rules_show(real_from_ast(tree)[1]) else 'false'))
+			except Exception as e:  # noqa: BLE001
+				real.append('ok false')
+		if kind == 'damaged' and text.isascii():
+			ops.append(f'reload\t{hx(text)}')
+			if k == 'ok':
+				k3, back3 = real_from_ast(payload)
+				real.append('ok ' + gramlib.rules_show(back3) if k3 == 'ok' else k3)
+			else:
+				real.append(k)
+		for tok in tokens[:40]:
+			ops.append(f'gramclass\t{hx(tok.string)}')
+			real.append(str(gen_rules.classify(world.regexps, tok.string)))
 		if kind in ('plain', 'bare') and k == 'ok':
 			# the spec-side toAst is the tree the meta-grammar assigns to the printout (hypothesis of C12.text_rt_partial)
 			ops.append(f'toast\t{gramlib.tentry_sexp(tree)}')
@@ -211,7 +241,7 @@ def stream_rules_text(ctx: Ctx) -> Stream:
 		cases.append(({'kind': kind, 'outcome': k}, ops, real))
 	st = common.correspond('rules-text', cases, 'rules', classify=lambda d: f"{d['kind']}:{d['outcome']}")
 	st.note = ('real Rules.pretty() of random rule sets (and the two shipped .lark files, and damaged printouts) lexed by the real gram_tokenizer; '
-		'real SyntaxParser(gram_rules()) vs the model engine on the same tokens; the real parse of every printout equals the spec function toAst (the hypothesis of C12.text_rt_partial)')
+		'real SyntaxParser(gram_rules()) vs the model engine on the same tokens; the real parse of every printout equals the spec function toAst (the hypothesis of C12.text_rt_partial); the end-to-end model round trip `textrt` (printer → C13 lexer model → regexp class predicates → engine → from_ast) vs the real round trip, also for both shipped rule sets; `gramclass` vs the real re.fullmatch on every token')
 	return st
 
 
@@ -559,6 +589,11 @@ STATEMENTS = {
 	'ast_rt_shipped': 'gram_rules() and py_rules() are canonical',
 	'fixed_gram': 'the model engine with the built-in rules on the real token list of gram.lark yields the literal of gram_rules.py, and from_ast of it is gram_rules() (kernel-evaluated)',
 	'fixed_gram_text': 'the same starting from the embedded TEXT of gram.lark: the C13 lexer model with the gram token definition yields the strings and source maps of that token list (kernel-evaluated); only the regexp class per token is not recomputed in Lean',
+	'fixed_gram_pure': 'the same with the token classes computed in Lean too (GramClass predicates): text → lexer model → classes → engine → from_ast, no dumped token data',
+	'gram_class_agrees': 'the five transcribed regexp predicates are the regexp terminals of gram_rules() and classify every dumped token (gram.lark, py_gram.lark, witnesses) as the real re.fullmatch did',
+	'text_rt_gram': 'kernel-evaluated instance of the text-level law: printing gram_rules(), lexing (C13 model), classifying, parsing with gram_rules() and from_ast gives gram_rules() back — nothing dumped',
+	'text_rt_witnesses': 'the same for every recorded witness rule set',
+	'render_value_rt': 'for a token value without a single quote, Python\'s literal evaluation of the text render_rules writes (after both escape fix-ups) is the value itself',
 	'fixed_py': 'compiling the real token list of py_gram.lark yields, through render_rules, exactly the text of py_rules.py; its tree equals the literal of py_rules.py up to the renderer\'s \\\' fix-up; from_ast of the literal is py_rules() (kernel-evaluated)',
 	'text_rt_partial': 'the text-level law holds for every canonical g whose printout the engine parses into toAst g (the hypothesis the rules-text correspondence checks on the real code)',
 	'text_rt_f7_regression': 'after fix 87005c8 x := a (b | c) and x := a b | c print differently (the repaired finding F7)',
@@ -579,6 +614,7 @@ def run(ctx: Ctx) -> int:
 		partial={
 			'proved': 'AST-level round trip (both directions), both fixed points as kernel-evaluated computations on the real token lists, text-level law reduced to one hypothesis (text_rt_partial) and kernel-checked on the recorded witnesses, accept_same',
 			'correspondence_only': 'from_ast / Prettier / Pattern.make / render_rules / the engine under gram_rules() equal the model on random and shipped inputs; toAst equals the real parse of a printout',
+			'tests': 'TextRt.textRt py_rules() = true is evaluated by the compiled driver on every run (rules-text stream, case textrt-py_rules) — as a kernel proof it takes 8 min, so it is a test, not a theorem',
 			'search_only': 'text-level round trip in general (text_rt_statement: needs a lexer model and an inversion argument for the engine on the meta-grammar), module texts on disk, compiled vs original rules on sentences',
 		},
 		assumptions=[
@@ -586,7 +622,9 @@ def run(ctx: Ctx) -> int:
 			'generated terminals are single tokens of the meta-grammar (strings without a double quote, regexps not starting with a slash)',
 			'gram_rules.py is compared after removing its hand-written docstring and the extra newline at the end of the file',
 		],
-		trusted=['the gram tokenizer for py_gram.lark: the model engine is fed its REAL token list (kernel lexing of that 5 kB text exceeds the kernel time limit; for gram.lark and the round-trip witnesses the C13 lexer model is evaluated in the kernel and agrees token by token)',
+		trusted=['Python string-literal evaluation as transcribed in RulesAst.pyUnescape (\\\\ and \\\' only); that the rendered text is one well-formed module is checked by the render-import search (exec)',
+			'the five regexp terminals of the meta-grammar transcribed as Lean predicates (GramClass), tied by C12.gram_class_agrees and the gramclass correspondence',
+			'the gram tokenizer for py_gram.lark: the model engine is fed its REAL token list (kernel lexing of that 5 kB text exceeds the kernel time limit; for gram.lark and the round-trip witnesses the C13 lexer model is evaluated in the kernel and agrees token by token)',
 			'Python literal evaluation of the rendered module text (\\\\ → \\, \\\' → \') when relating py_rules.py\'s text to its evaluated literal',
 			'regular expressions: evaluated by the real `re`, entering the model as token classes'])
 
